@@ -91,6 +91,22 @@ FREE_TEXT_FIELDS = {"oid", "long_name", "semantic", "display_name", "key_label",
                     "category", "syntax", "encryption", "revision", "value", "teammember", "ti"}
 META_TEXT = 'v<&>"\'äß'
 META_XHTML = "<p>a &amp; b &lt; c ä</p>"
+# white space other than the blank: survives in XML attribute values only if written as character references
+WS_TEXT = "a\tb\nc\rd e"
+_WS_OK: Optional[set] = None
+
+
+def ws_allowed(cls: str, field: str) -> bool:
+    """The 'ws' value class (TAB / LF / CR inside a value) is restricted to the (class, field) pairs validated on
+    the pinned tree (vsim/props/c11_ws_ok.json, tools/triage_ws.py): those are the values written as XML attributes
+    (where the writer escapes them); in element content a CR is legitimately normalised by any XML parser."""
+    global _WS_OK
+    if os.environ.get("VERIF_C11_ALL_WS"):
+        return True
+    if _WS_OK is None:
+        p = os.path.join(os.path.dirname(os.path.abspath(__file__)), "c11_ws_ok.json")
+        _WS_OK = set(json.load(open(p))) if os.path.exists(p) else set()
+    return f"{cls}.{field}" in _WS_OK
 
 
 def pool_of(rs: int, index: int) -> int:
@@ -172,7 +188,7 @@ def worker_init() -> None:
     # enumerate perturbation targets once per base (deterministic walk)
     STATE["targets"] = {}
     STATE["base_errors"] = {}
-    for name in list(STATE["bases"]) + ["somersault_renamed", "zoo0", "zoo1", "zoo2", "zoo3", "zoo9"]:
+    for name in list(STATE["bases"]) + ["somersault_renamed", "zoo0", "zoo1", "zoo2", "zoo3", "zoo8", "zoo9"]:
         try:
             with W.quiet():
                 db = load_base(name)
@@ -192,6 +208,8 @@ def worker_init() -> None:
                     continue
                 if t["kind"] == "leaf" and t["field"] in FREE_TEXT_FIELDS and "str" in t["type"]:
                     pairs.append((name, key, "meta"))
+                    if ws_allowed(t["cls"], t["field"]):
+                        pairs.append((name, key, "ws"))
                 if t["kind"] == "leaf" and "str" in t["type"] and "Union" not in t["type"]:
                     pairs.append((name, key, "empty"))
     STATE["pairs"] = pairs
@@ -255,7 +273,8 @@ def load_base(name: str):
     raise ValueError(name)
 
 
-def build_split_db():
+def build_split_db(parent_name: str = "zsplit_base", child_name: str = "zsplit_ecu",
+                   parent_cont: str = "zsplit_parents", child_cont: str = "zsplit_children"):
     """A database split over two documents with inheritance ACROSS them: a base variant in container
     zsplit_parents, an ECU variant in container zsplit_children whose PARENT-REF points into the other
     document (the child must load whatever the order of the two files)."""
@@ -269,7 +288,7 @@ def build_split_db():
 
     from ..zoo.mk import LayerBuilder, mk
     db = Database()
-    pb = LayerBuilder("zsplit_base", "base", container="zsplit_parents")
+    pb = LayerBuilder(parent_name, "base", container=parent_cont)
     u8 = pb.dop("u8", pb.slt(bits=8))
     u16 = pb.dop("u16", pb.slt(bits=16))
     rq = pb.request("rq_inherited", [pb.coded_const("sid", 0x22), pb.value("did", u16)])
@@ -279,7 +298,7 @@ def build_split_db():
     pb.service("overridden_service", rq2, [], [])
     parent_raw = pb.raw()
     parent = BaseVariant(diag_layer_raw=parent_raw)
-    cb = LayerBuilder("zsplit_ecu", "ecu", container="zsplit_children")
+    cb = LayerBuilder(child_name, "ecu", container=child_cont)
     cu8 = cb.dop("cu8", cb.slt(bits=8))
     crq = cb.request("rq_own", [cb.coded_const("sid", 0x31), cb.value("y", cu8)])
     cb.service("own_service", crq, [], [])
@@ -289,7 +308,7 @@ def build_split_db():
                      not_inherited_variables=[], not_inherited_dops=[], not_inherited_tables=[],
                      not_inherited_global_neg_responses=[])
     child = EcuVariant(diag_layer_raw=cb.raw(parent_refs=[pref]))
-    for cname, attr, layer in (("zsplit_children", "ecu_variants", child), ("zsplit_parents", "base_variants", parent)):
+    for cname, attr, layer in ((child_cont, "ecu_variants", child), (parent_cont, "base_variants", parent)):
         frag = OdxDocFragment(cname, DocType.CONTAINER)
         dlc = mk(DiagLayerContainer, odx_id=OdxLinkId(f"{cname}.id", [frag]), short_name=cname,
                  **{attr: NamedItemList([layer])})
@@ -302,6 +321,10 @@ def build_zoo_db(seed: int):
     """A zoo database: 1-2 containers with an ECU variant each built from the zoo shapes."""
     if seed == 9:
         return build_split_db()
+    if seed == 8:
+        # the same with legal short names that cannot be used as Python identifiers / collide with members of
+        # the name lists (whoever looks layers up by name must use the short name, not the mangled key)
+        return build_split_db("values", "1st_gen", "index", "class")
     from odxtools.database import Database
     from odxtools.diaglayercontainer import DiagLayerContainer
     from odxtools.diaglayers.ecuvariant import EcuVariant
@@ -649,6 +672,12 @@ def new_value(target: Dict[str, Any], old: Any, vclass: str, n: int) -> Tuple[bo
         if old == "" or (target["cls"], target["field"]) in NOT_EMPTY:
             return False, None
         return True, ""
+    if vclass == "ws":
+        if target["kind"] != "leaf" or not (isinstance(old, str) or (old is None and "Optional[str]" in t)):
+            return False, None
+        if name not in FREE_TEXT_FIELDS or not ws_allowed(target["cls"], name):
+            return False, None
+        return True, WS_TEXT
     if vclass == "meta":
         if not (isinstance(old, str) or (old is None and "Optional[str]" in t)):
             return False, None
@@ -847,9 +876,9 @@ def gen(rs: int, index: int, tier: str) -> Dict[str, Any]:
                 alts.append(t["path"])
         alts = alts[:8]
     else:
-        base = weighted(r, ["somersault", "somersault_modified", "somersault_renamed", "zoo0", "zoo1", "zoo2", "zoo3", "zoo9"],
-                        [5, 2, 2, 2, 2, 2, 2, 3])
-        vclass = weighted(r, ["plain", "meta", "empty", "none"], [6, 3, 1, 1])
+        base = weighted(r, ["somersault", "somersault_modified", "somersault_renamed", "zoo0", "zoo1", "zoo2", "zoo3", "zoo9", "zoo8"],
+                        [5, 2, 2, 2, 2, 2, 2, 3, 2])
+        vclass = weighted(r, ["plain", "meta", "empty", "none", "ws"], [6, 3, 1, 1, 1])
         tgts = STATE["targets"][base]
         tgt = r.choice(tgts) if vclass != "none" and tgts else None
         alts = []
